@@ -83,6 +83,16 @@ def oracle(case, rec):
             raise Violation('C11/raises/%s/squash=%s' % (type(e).__name__, sq), repr(e))
     if not all(np.array_equal(x, y) for x, y in zip(ins, (f1.astype(ft_), f2.astype(ft_), astored))):
         raise Violation('C11/input-modified', '')
+    # the caller keeps the full [time x AM x carrier] result and asks for another spectrum of the same shape (other amplitudes)
+    held = outs[False]
+    keep = np.array(held, dtype=float)
+    try:
+        emd.spectra.holospectrum(ins[0], ins[1], (astored * 2 + 1).astype(astored.dtype), E(e1, ek[0]), E(e2, ek[1]), mode=mode, squash_time=False)
+    except Exception as e:
+        raise Violation('C11/raises/%s/second-request' % type(e).__name__, repr(e))
+    if not np.array_equal(np.asarray(held, dtype=float), keep, equal_nan=True):
+        raise Violation('C11/earlier-result-changed-by-a-later-request', 'the full spectrum returned first was overwritten by the next call')
+    outs[False] = keep
     exp = {False: H, 'sum': H.sum(axis=0), 'mean': H.mean(axis=0)}
     oor1 = bool(((f1 < e1[0]) | (f1 >= e1[-1])).any())
     oor2 = bool(((f2 < e2[0]) | (f2 >= e2[-1])).any())
